@@ -77,8 +77,9 @@ AttrOf(kd, k) ==
     [] kd = "polyline" -> [pts |-> << <<k, 2>>, <<k + 3, 2>>, <<k + 3, 6>>, <<k - 1, 7>> >>]
     [] kd = "polygon"  -> [pts |-> << <<1, k>>, <<5, k + 1>>, <<3, k + 4>> >>]
     [] kd = "rect"     -> [x |-> k, y |-> 2*k - 3, w |-> 4 + k, h |-> 3]
-    [] kd = "rrect"    -> [x |-> k, y |-> 2*k - 3, w |-> 6 + k, h |-> 5,                  \* 0 = attribute absent: the other one is used for both
-                           rx |-> (IF k % 3 = 2 THEN 0 ELSE 1), ry |-> (IF k % 3 = 1 THEN 0 ELSE 2)]
+    [] kd = "rrect"    -> [x |-> k, y |-> 2*k - 3, w |-> 6 + 2*k, h |-> 6,                \* 0 = attribute absent: the other one is used for both
+                           rx |-> (IF k % 3 = 2 THEN 0 ELSE IF k % 6 = 3 THEN 9 + k ELSE 1),     \* k = 3, 9: more than half the width (clamped, SVG 1.1 9.2)
+                           ry |-> (IF k % 3 = 1 THEN 0 ELSE IF k % 6 = 2 THEN 7 ELSE 2)]        \* k = 2, 8: more than half the height (and, rx being absent, of the width)
     [] kd = "circle"   -> [cx |-> k, cy |-> 3 - k, r |-> 2 + k]
     [] kd = "ellipse"  -> [cx |-> k, cy |-> 3 - k, rx |-> 2 + k, ry |-> 3]
     [] OTHER           -> [d |-> k % 2]
@@ -90,8 +91,11 @@ ShapeSegs(kd, k) ==
     [] kd = "polyline" -> Polyline(a.pts, FALSE)
     [] kd = "polygon"  -> Polyline(a.pts, TRUE)
     [] kd = "rect"     -> Polyline(<< <<a.x, a.y>>, <<a.x + a.w, a.y>>, <<a.x + a.w, a.y + a.h>>, <<a.x, a.y + a.h>> >>, TRUE)
-    [] kd = "rrect"    -> LET rx == IF a.rx = 0 THEN a.ry ELSE a.rx
-                              ry == IF a.ry = 0 THEN a.rx ELSE a.ry
+    [] kd = "rrect"    -> LET rx0 == IF a.rx = 0 THEN a.ry ELSE a.rx
+                              ry0 == IF a.ry = 0 THEN a.rx ELSE a.ry
+                              \* "if rx is greater than half of the width, the effective rx is half of the width" (same for ry / height)
+                              rx == IF rx0 > a.w \div 2 THEN a.w \div 2 ELSE rx0
+                              ry == IF ry0 > a.h \div 2 THEN a.h \div 2 ELSE ry0
                               r == <<rx, ry>>
                               Arc(p, q) == <<"A", p, r, 0, 0, 1, q>>
                           IN << Ln(<<a.x + rx, a.y>>, <<a.x + a.w - rx, a.y>>),
